@@ -11,6 +11,7 @@ import ast
 import builtins
 import copy as _copy
 import enum
+import collections
 import functools
 import hashlib
 import inspect
@@ -260,6 +261,9 @@ class Interp:
         self.inline_modules = ("pandera",)
         self.no_inline: set = set()
         self.sym_globals: Dict[Tuple[str, str], Any] = {}
+        # live module-level / class-level mutable containers of pandera reached by the interpreted code (id -> "module.name"):
+        # state every thread shares.  A write to one is recorded (`shared_container_write`) and undone at the end of the path.
+        self.live_shared: Dict[int, str] = {}
         self.loop_specs: Dict[Tuple[str, int], Any] = {}
         self.opaque_calls: Dict[str, int] = {}
         self.inlined: Dict[str, str] = {}
@@ -317,7 +321,14 @@ class Interp:
         if m is not None:
             return m(self, *args, **kwargs)
         if callable(fn) and (getattr(fn, "__module__", None) or "").split(".")[0] in ("pyvc", "contracts"):
-            return fn(*args, **kwargs)  # theory / contract code: runs natively on symbolic values
+            try:
+                return fn(*args, **kwargs)  # theory / contract code: runs natively on symbolic values
+            except TypeError as e:
+                # the program calls a library operation with arguments its theory model does not have (binding failed at the
+                # call itself, no frame of the model ran): the call left the modelled vocabulary -> undecided, never a crash
+                if e.__traceback__ is not None and e.__traceback__.tb_next is None and ("unexpected keyword" in str(e) or "positional argument" in str(e)):
+                    raise Unsupported(f"theory model {getattr(fn, '__qualname__', fn)} does not model this call: {e}")
+                raise
         if inspect.ismethod(fn):  # live bound method (e.g. classmethod bound to a class)
             return self.call(fn.__func__, [fn.__self__] + list(args), kwargs)
         if isinstance(fn, type):
@@ -548,6 +559,7 @@ class Interp:
             p.ghost.setdefault("globals0", {})[key] = v
             return v
         if name in g:
+            self.note_live_shared(g[name], f"{modname}.{name}")
             return g[name]
         if hasattr(builtins, name):
             return getattr(builtins, name)
@@ -618,8 +630,13 @@ class Interp:
                     p.globals_state[key] = val
                     p.ghost.setdefault("globals0", {})[key] = val
                     return val
+        if isinstance(v, set) and name in ("add", "update", "discard", "remove", "clear", "pop", "difference_update", "intersection_update", "symmetric_difference_update"):
+            return SetMutator(self, v, name)
         try:
-            return getattr(v, name)
+            r = getattr(v, name)
+            if isinstance(v, (pytypes.ModuleType, type)):
+                self.note_live_shared(r, f"{getattr(v, '__module__', None) + '.' + v.__qualname__ if isinstance(v, type) else v.__name__}.{name}")
+            return r
         except AttributeError as e:
             if getattr(v, "__pyvc_symbolic__", False):
                 raise Unsupported(f"theory value {type(v).__name__} has no model for .{name}")
@@ -792,6 +809,11 @@ class Interp:
 
         mod = importlib.import_module(s.module)
         for al in s.names:
+            if not hasattr(mod, al.name):  # `from package import submodule`: the import system loads the submodule
+                try:
+                    importlib.import_module(f"{s.module}.{al.name}")
+                except ImportError as e:
+                    self.raise_py(ImportError, *e.args)
             fr.locals[al.asname or al.name] = getattr(mod, al.name)
 
     def s_FunctionDef(self, s, fr):
@@ -911,7 +933,20 @@ class Interp:
             self.raise_py(TypeError, "'NoneType' object does not support item assignment")
         raise Unsupported(f"setitem on {type(c).__name__}")
 
+    def note_live_shared(self, v, where):
+        """remember a live mutable container that belongs to a pandera module or class (shared by every thread)"""
+        if type(v) in (dict, list, set, collections.defaultdict, collections.OrderedDict) and where.split(".")[0] in self.inline_modules:
+            self.live_shared.setdefault(id(v), where)
+            self.models.keepalive.append(v)
+
     def note_container_write(self, c):
+        if id(c) in self.live_shared and not isinstance(c, (ListObj, DictObj)):
+            p = cur()
+            p.event("shared_container_write", self.live_shared[id(c)])
+            snap = p.ghost.setdefault("live_snap", {})  # undone by restore_live_shared at the end of the path
+            if id(c) not in snap:
+                snap[id(c)] = (c, _copy.copy(c))
+            return
         if getattr(c, "pre", False) or getattr(c, "live", False):
             cur().event("container_write", c)
             snap = cur().ghost.setdefault("container0", {})
@@ -1793,6 +1828,29 @@ class DictMutator:
                 return args[1]
             self.interp.raise_py(KeyError, k)
         return getattr(dict, self.op)(self.d, *args, **kw)
+
+
+class SetMutator:
+    def __init__(self, interp, st, op):
+        self.interp, self.st, self.op = interp, st, op
+        self.__pyvc_model__ = True
+
+    def __call__(self, *args, **kw):
+        self.interp.note_container_write(self.st)
+        try:
+            return getattr(set, self.op)(self.st, *args, **kw)
+        except KeyError as e:
+            self.interp.raise_py(KeyError, *e.args)
+
+
+def restore_live_shared(p):
+    """undo the writes an explored path made to live module-level containers (the verifier runs in the same process)"""
+    for c, snap in (p.ghost.get("live_snap") or {}).values():
+        if isinstance(c, list):
+            c[:] = snap
+        else:
+            c.clear()
+            c.update(snap)
 
 
 class DictGet:
